@@ -301,6 +301,104 @@ fn case2<T: Elem>(case: u64, args: &Args, ev: &mut Ev) {
     });
 }
 
+/// Queries that share their buffer with the interpolator's axis: views of one grid that start
+/// at the same element as the axis view but differ in stride, direction or length. Whether a
+/// batch is answered depends on the query *values* only.
+fn aliased_queries(ev: &mut Ev) {
+    use vh::ndarray::{s, Array1, Array2, ArrayView1};
+    use vh::ndarray_interp::interp1d::cubic_spline::CubicSpline;
+    use vh::ndarray_interp::interp1d::{Interp1D, Linear};
+    use vh::ndarray_interp::interp2d::Interp2D;
+    let mut rng = Rng::derive(5, "C05-aliased-queries", &[0]);
+    let mut id = 8_000_000u64;
+    for round in 0..60u64 {
+        let n = 3 + rng.below(6);
+        let mut pos = rng.irange(-10, 10) as f64 * 0.5;
+        let g: Array1<f64> = (0..2 * n)
+            .map(|_| {
+                let v = pos;
+                pos += 0.25 * (1 + rng.below(5)) as f64;
+                v
+            })
+            .collect();
+        let data: Array2<f64> = Array2::from_shape_fn((n, 2), |_| rng.f01() * 10.0 - 5.0);
+        let gs = g.clone().into_shared();
+        // (name, axis view, query view)
+        let cases: Vec<(&str, ArrayView1<f64>, ArrayView1<f64>)> = vec![
+            ("axis g[..n], query g[..;2] (same start and length, stride 2)", g.slice(s![..n]), g.slice(s![..2 * n - 1;2])),
+            ("axis g[n-1..2n-1], query g[..n] reversed (same start element)", g.slice(s![n - 1..2 * n - 1]), g.slice(s![..n;-1])),
+            ("axis g[..n], query = the same view", g.slice(s![..n]), g.slice(s![..n])),
+            ("axis g[..n], query g[..n+1] (one element longer)", g.slice(s![..n]), g.slice(s![..n + 1])),
+            ("axis g[..n], query g[..n-1] (one element shorter)", g.slice(s![..n]), g.slice(s![..n - 1])),
+            ("axis g[1..n+1], query g[..n] (starts one element earlier)", g.slice(s![1..n + 1]), g.slice(s![..n])),
+            ("axis g[..n] (shared storage), query view of the same buffer with stride 2", gs.slice(s![..n]), gs.slice(s![..2 * n - 1;2])),
+        ];
+        for (name, axis, query) in cases {
+            id += 1;
+            let (lo, hi) = (axis[0], axis[n - 1]);
+            let all_in = query.iter().all(|&q| q >= lo && q <= hi);
+            macro_rules! probe {
+                ($label:expr, $interp:expr) => {{
+                    let interp = $interp;
+                    let r = vh::outcome::guard(|| interp.interp_array(&query).map(|a| a.iter().map(|v| v.to_bits()).collect::<Vec<u64>>()).map_err(|e| if matches!(e, vh::ndarray_interp::InterpolateError::OutOfBounds(_)) { "OutOfBounds".to_string() } else { format!("other error: {e}") }));
+                    ev.add("aliased_query_batches", 1);
+                    ev.count("aliased_query_expected", if all_in { "answered" } else { "rejected" });
+                    let per_element: Vec<u64> = if all_in {
+                        query.iter().flat_map(|&q| interp.interp(q).unwrap().iter().map(|v| v.to_bits()).collect::<Vec<_>>()).collect()
+                    } else {
+                        Vec::new()
+                    };
+                    let ok = match &r {
+                        Ok(Ok(bits)) => all_in && *bits == per_element,
+                        Ok(Err(m)) => !all_in && m == "OutOfBounds",
+                        Err(_) => false,
+                    };
+                    if !ok {
+                        ev.violation(
+                            if all_in { "C05:in-range-query-mishandled" } else { "C05:out-of-range-accepted" },
+                            &format!(
+                                "{} {name} (n={n}): axis {:?}, query {:?} -> {:?}; expected {}",
+                                $label,
+                                axis.to_vec(),
+                                query.to_vec(),
+                                r.as_ref().map(|x| x.as_ref().map(|b| b.iter().map(|u| f64::from_bits(*u)).collect::<Vec<_>>())),
+                                if all_in { "the per-element results" } else { "Err(OutOfBounds)" }
+                            ),
+                            id,
+                            J::obj().set("round", round).set("variant", name),
+                        );
+                    }
+                }};
+            }
+            match round % 3 {
+                0 => probe!("Linear", Interp1D::builder(data.view()).x(axis).strategy(Linear::new()).build().unwrap()),
+                1 => probe!("CubicSpline", Interp1D::builder(data.view()).x(axis).strategy(CubicSpline::new()).build().unwrap()),
+                _ => probe!("Linear (new_unchecked)", Interp1D::new_unchecked(axis, data.view(), Linear::new())),
+            }
+            // 2-D: the x queries alias the x axis, the y queries are in range
+            let grid: Array2<f64> = Array2::from_shape_fn((n, 3), |_| rng.f01());
+            let yax: Array1<f64> = Array1::from(vec![0.0, 1.0, 2.5]);
+            let b = Interp2D::builder(grid.view()).x(axis).y(yax.view()).build().unwrap();
+            let qy: Array1<f64> = (0..query.len()).map(|_| rng.f01() * 2.5).collect();
+            let r = vh::outcome::guard(|| b.interp_array(&query, &qy).map(|a| a.iter().map(|v| v.to_bits()).collect::<Vec<u64>>()).map_err(|e| if matches!(e, vh::ndarray_interp::InterpolateError::OutOfBounds(_)) { "OutOfBounds".to_string() } else { format!("other error: {e}") }));
+            ev.add("aliased_query_batches", 1);
+            let ok = match &r {
+                Ok(Ok(bits)) => all_in && *bits == query.iter().zip(qy.iter()).map(|(&a, &c)| b.interp_scalar(a, c).unwrap().to_bits()).collect::<Vec<_>>(),
+                Ok(Err(m)) => !all_in && m == "OutOfBounds",
+                Err(_) => false,
+            };
+            if !ok {
+                ev.violation(
+                    if all_in { "C05:in-range-query-mishandled" } else { "C05:out-of-range-accepted" },
+                    &format!("Bilinear {name} (n={n}): x axis {:?}, xs {:?} -> {:?}", axis.to_vec(), query.to_vec(), r.as_ref().map(|x| x.as_ref().map(|b| b.len()))),
+                    id,
+                    J::obj().set("round", round).set("variant", name),
+                );
+            }
+        }
+    }
+}
+
 fn main() {
     let args = Args::parse("C05");
     let n = args.budget(300, 30000);
@@ -329,6 +427,9 @@ fn main() {
     }
     let both = fams.values().filter(|(a, r)| *a && *r).count();
     let mut ev = ev;
+    if args.only.is_none() && args.shard == 0 {
+        aliased_queries(&mut ev);
+    }
     ev.add("strategy_entry_pairs", fams.len() as u64);
     ev.add("strategy_entry_pairs_with_accept_and_reject", both as u64);
     ev.finish(
